@@ -28,7 +28,7 @@ func formatter(name string) termformat.Formatter {
 		return termformat.Passthru
 	case "expr":
 		if exprFormatter == nil {
-			exprFormatter = termformat.MustFromExpression("<{0}>")
+			exprFormatter = withShadow(termformat.MustFromExpression("<{0}>"))
 		}
 		return exprFormatter
 	}
